@@ -62,6 +62,32 @@ def run(ctx):
                    {"cause": m["cause"]})
     ctx.exhaustive = True
 
+    # ---- rule TEXT level: syntax trees folded by RuleText!Meaning, rendered literally ----
+    rt = ctx.tlc("MC_RuleText", "CONSTANT MaxSet = 2\nCONSTANT PairVals = 4\nCONSTANT MaxOpts = %d\nINIT Init2\nNEXT Next2\n"
+                 "INVARIANT Emit2\nINVARIANT OrderFree\nCHECK_DEADLOCK FALSE\n" % (2 if quick else 3), timeout=2400)
+    trecs = [x for x in rt.records if x.get("kind") in ("REQS", "TEXT")]
+    tp = os.path.join(ctx.work, "ruletext.ndjson")
+    vf.write_ndjson(tp, trecs)
+    tm = os.path.join(ctx.work, "ruletext-mismatches.ndjson")
+    ts = ctx.vh(["replay-ruletext", "in=" + tp, "out=" + tm], timeout=3000)
+    ctx.evaluations += ts["evaluations"]
+    ctx.validated += ts["texts"]
+    ctx.nontrivial += ts["expected_matches"]
+    ctx.extra["rule_texts"] = ts["texts"]
+    ctx.extra["rule_texts_expected_to_be_rejected"] = ts["errors_expected"]
+    for t in ts["samples"][:3]:
+        ctx.sample({"rule_text": t})
+    reqs_rec = [x for x in trecs if x["kind"] == "REQS"]
+    seen_t = set()
+    for m in vf.read_ndjson(tm):
+        if m["text"] in seen_t:
+            continue
+        seen_t.add(m["text"])
+        if len(seen_t) > 60:
+            break
+        ctx.report("rule text %r: %s: spec %s, code %s" % (m["text"], m["why"], m.get("expected", m.get("expected_error")), m.get("got", m.get("got_error"))),
+                   {"reexec": ["replay-ruletext"], "input": reqs_rec + [m["case"]]}, {"cause": m["cause"]})
+
     # ---- code -> spec: seeded grammar driver, validated by Trace_Rule ----
     n = 20000 if quick else 1000000
     trace = os.path.join(ctx.work, "rule-trace.ndjson")
@@ -98,6 +124,14 @@ def replay(ctx, path):
     import json
     ctx.build()
     obj = json.load(open(path))
+    if obj.get("reexec") == ["replay-ruletext"]:
+        tp = os.path.join(ctx.work, "ruletext.ndjson")
+        vf.write_ndjson(tp, obj["input"])
+        tm = os.path.join(ctx.work, "ruletext-mismatches.ndjson")
+        ctx.vh(["replay-ruletext", "in=" + tp, "out=" + tm])
+        mm = vf.read_ndjson(tm)
+        print(json.dumps({"mismatches": [{k: m.get(k) for k in ("text", "why", "expected", "got")} for m in mm[:3]]}, indent=1))
+        return 1 if mm else 0
     s, mism = replay_rows(ctx, obj["input"])
     print(json.dumps({"mismatches": len(mism), "detail": mism[:3]}, indent=1)[:3000])
     return 1 if mism else 0
